@@ -14,6 +14,7 @@ import random
 import shutil
 
 from .. import common
+from .. import gen
 from .. import inproc
 from .. import program
 from . import c02
@@ -50,15 +51,47 @@ def final_after(src, order_of_sets, store_base):
         shutil.rmtree(store, ignore_errors=True)
 
 
+def kw_site(rng, i):
+    """dataclass-like call with keyword arguments in arbitrary order, explicit defaults (pending update)
+    and fields that appear/disappear/change (pending fix): categories meet inside one call"""
+    name = rng.choice(["DC", "AT", "NT"])
+    fields, defaults = gen.CALL_FIELDS[name]
+    old, new = {}, {}
+    for f in fields:
+        dv = defaults.get(f)
+        r = rng.random()
+        if dv is None:  # required field
+            v = str(rng.randint(0, 9))
+            old[f] = v
+            new[f] = v if r < 0.6 else str(rng.randint(10, 19))
+        elif r < 0.3:
+            old[f] = dv  # explicit default, stays default: update removes it
+        elif r < 0.6:
+            new[f] = str(rng.randint(20, 29))  # appears: fix inserts it
+        elif r < 0.8:
+            v = str(rng.randint(30, 39))
+            old[f] = v
+            new[f] = v
+        else:
+            old[f] = str(rng.randint(40, 49))  # back to the default: fix removes it
+    items = list(old.items())
+    rng.shuffle(items)
+    old_text = name + "(" + ", ".join(f"{k}={v}" for k, v in items) + ")"
+    obs = name + "(" + ", ".join(f"{k}={v}" for k, v in new.items()) + ")"
+    return {"id": i, "op": "eq", "old": old_text, "obs": [obs], "place": "loop", "edits": ["kw"], "sig": "kwcall"}
+
+
 def run_shard(args):
     tier = args.tier
-    ncases = {"quick": 16, "thorough": 400}[tier]
+    ncases = {"quick": 12, "thorough": 400}[tier]
     C = {"programs": 0, "programs_k2plus": 0, "permutation_runs": 0, "single_category_runs": 0, "crashed": 0, "by_k": {}, "crash_kinds": {}}
     out = {"evaluations": 0, "signatures": set(), "samples": [], "violations": [], "counters": C, "inconclusive": []}
     for c in range(ncases):
         rng = random.Random(f"{args.seed}/{PROP}/{args.shard}/{c}")
         mk = c02.make_site if rng.random() < 0.35 else c05.make_site
         sites = [mk(rng, i, 3 if mk is c02.make_site else 2) for i in range(rng.randint(3, 6))]
+        if rng.random() < 0.4:
+            sites = [kw_site(rng, i) if rng.random() < 0.7 else s for i, s in enumerate(sites)]
         src, order = program.build(sites, style="rec", tests=rng.randint(1, 2))
         C["programs"] += 1
         res0 = inproc.run({"test_a.py": src}, ())
